@@ -33,6 +33,8 @@ struct Gen<'a, R: RoleType, T: IsPacketId> {
     force_rc: Option<u8>,        // return / reason code of the next CONNACK (either direction)
     force_own_tam: Option<u16>,  // the Topic Alias Maximum WE announce in the next handshake
     force_peer_rm: Option<u16>,  // the Receive Maximum the PEER announces in the next handshake
+    ska_first: bool,             // the next CONNACK lists Server Keep Alive before every other property
+    window_ops: Vec<String>,     // calls made between CONNECT and CONNACK of the next handshake
 }
 
 impl<'a, R: RoleType, T: IsPacketId> Gen<'a, R, T> {
@@ -152,6 +154,12 @@ impl<'a, R: RoleType, T: IsPacketId> Gen<'a, R, T> {
             let j = self.rng.below(i as u64 + 1) as usize;
             ps.swap(i, j);
         }
+        if for_connack && self.ska_first {
+            if let Some(i) = ps.iter().position(|p| matches!(p, P::U16(19, _))) {
+                let p = ps.remove(i);
+                ps.insert(0, p);
+            }
+        }
         ps
     }
     fn ka(&mut self) -> u16 {
@@ -176,6 +184,11 @@ impl<'a, R: RoleType, T: IsPacketId> Gen<'a, R, T> {
                 // the CONNECT was refused: a conforming server has nothing to answer (the library
                 // tolerates an unsolicited CONNACK - contract-respecting walks do not build on that)
                 return;
+            }
+            for o in std::mem::take(&mut self.window_ops) {
+                if self.status() == "G" {
+                    self.op(o);
+                }
             }
             if v == 5 && self.rng.chance(1, 6) {
                 // extended authentication: AUTH from the server (sizes around our own limit), our answer
@@ -217,11 +230,36 @@ impl<'a, R: RoleType, T: IsPacketId> Gen<'a, R, T> {
             let mut bytes = w_connect(v, clean, ka, b"cid", &ps);
             if lvl != v {
                 bytes[8] = lvl;
+            } else if !force_ok && self.rng.chance(1, 12) {
+                // a CONNECT the parser refuses (both versions answer with a refusing CONNACK, then close)
+                match self.rng.below(5) {
+                    0 => bytes[9] |= 1,    // reserved connect flag
+                    1 => bytes[9] |= 0x18, // will QoS 3
+                    2 if bytes[1] < 127 => {
+                        bytes.push(0); // a trailing byte beyond the payload
+                        bytes[1] += 1;
+                    }
+                    3 if bytes[1] < 128 => {
+                        bytes.pop(); // truncated client identifier
+                        bytes[1] -= 1;
+                    }
+                    _ if bytes[1] < 128 => {
+                        let rl = 7 + self.rng.below(5) as usize;
+                        bytes.truncate(2 + rl);
+                        bytes[1] = rl as u8;
+                    }
+                    _ => {}
+                }
             }
             if force_ok {
                 self.op(format!("recv {}", hex(&bytes)));
             } else {
                 self.recv(bytes);
+            }
+            for o in std::mem::take(&mut self.window_ops) {
+                if self.status() == "G" {
+                    self.op(o);
+                }
             }
             if self.ver() == 5 && self.status() == "G" && self.rng.chance(1, 6) {
                 // extended authentication before the CONNACK: the client's limit is already known
@@ -926,6 +964,8 @@ fn walk<R: RoleType, T: IsPacketId>(role: &'static str, ver: u8, steps: usize, r
         force_rc: None,
         force_own_tam: None,
         force_peer_rm: None,
+        ska_first: false,
+        window_ops: vec![],
     };
     // options
     for f in ["off", "apr", "aping", "amap", "arep"] {
@@ -947,9 +987,33 @@ fn walk<R: RoleType, T: IsPacketId>(role: &'static str, ver: u8, steps: usize, r
         g.op("interval 700".into());
         g.force_ok = true;
         g.force_ska = Some(*g.rng.pick(&[0u16, 3, 7]));
+        // the properties that follow Server Keep Alive in the CONNACK count as well
+        let limits = g.rng.chance(1, 2);
+        if limits {
+            g.ska_first = true;
+            g.force_peer_mps = Some(*g.rng.pick(&[20u32, 30]));
+            g.force_peer_rm = Some(1);
+            g.force_peer_tam = Some(1);
+        }
         g.handshake();
         g.force_ok = false;
         g.force_ska = None;
+        g.ska_first = false;
+        g.force_peer_mps = None;
+        g.force_peer_rm = None;
+        g.force_peer_tam = None;
+        if limits && g.status() == "C" {
+            let pw = g.pw();
+            g.op("vacancy".into());
+            g.op(format!("send 5 {}", hex(&w_publish(5, pw, 0, false, false, b"a", 0, &[], &[7u8; 40]))));
+            g.op(format!("send 5 {}", hex(&w_publish(5, pw, 0, false, false, b"a", 0, &[P::U16(35, 1)], b"x"))));
+            g.op(format!("send 5 {}", hex(&w_publish(5, pw, 0, false, false, b"", 0, &[P::U16(35, 1)], b"x"))));
+            for _ in 0..2 {
+                let id = g.fresh_id();
+                g.op(format!("send 5 {}", hex(&w_publish(5, pw, 1, false, false, b"a", id, &[], b"x"))));
+                g.after_send(id);
+            }
+        }
         g.op("interval none".into());
         g.send_publish();
     }
@@ -1102,7 +1166,13 @@ fn walk<R: RoleType, T: IsPacketId>(role: &'static str, ver: u8, steps: usize, r
         g.handshake();
         if g.status() == "C" {
             let mut sizes = vec![];
-            for (i, n) in [0usize, 20, 45].iter().enumerate() {
+            let mut lens = vec![0usize, 20, 45];
+            lens.push(*g.rng.pick(&[0usize, 20, 45, 60]));
+            for i in (1..lens.len()).rev() {
+                let j = g.rng.below(i as u64 + 1) as usize;
+                lens.swap(i, j);
+            }
+            for (i, n) in lens.iter().enumerate() {
                 let id = g.fresh_id();
                 let qos = 1 + (i as u8 % 2);
                 let b = w_publish(5, pw, qos, false, false, b"a", id, &[], &vec![7u8; *n]);
@@ -1333,6 +1403,111 @@ fn walk<R: RoleType, T: IsPacketId>(role: &'static str, ver: u8, steps: usize, r
             g.send_publish();
         }
     }
+    if g.legal && g.s.version() == 5 && g.rng.chance(1, 8) {
+        // directed: a stored PUBLISH is erased (expired) between the CONNECT and the CONNACK of the
+        // connection that resumes its session; the vacancy is asked for in that window and afterwards
+        let pw = g.pw();
+        g.force_ok = true;
+        g.force_persist = true;
+        g.force_clean = Some(g.rng.chance(1, 2));
+        g.handshake();
+        if g.status() == "C" {
+            let mut ids = vec![];
+            for q in [1u8, 2, 1] {
+                let id = g.fresh_id();
+                g.op(format!("send 5 {}", hex(&w_publish(5, pw, q, false, false, b"a", id, &[], b"s"))));
+                g.after_send(id);
+                ids.push(id);
+            }
+            g.op("closed".into());
+            g.my_ids.clear();
+            g.force_clean = Some(false);
+            g.force_peer_rm = Some(*g.rng.pick(&[1u16, 2, 3, 10]));
+            let k = g.rng.below(3) as usize;
+            g.window_ops = vec!["vacancy".into(), format!("erase {}", ids[k]), "vacancy".into()];
+            if g.rng.chance(1, 2) {
+                g.window_ops.push(format!("erase {}", ids[(k + 1) % 3]));
+                g.window_ops.push("vacancy".into());
+            }
+            g.handshake();
+            g.force_peer_rm = None;
+            g.op("vacancy".into());
+            g.op("stored".into());
+        }
+        g.inflight.clear();
+        g.force_ok = false;
+        g.force_persist = false;
+        g.force_clean = None;
+    }
+    if g.legal && g.s.version() == 5 && g.rng.chance(1, 8) {
+        // directed: the application's own acknowledgements exceed the peer's Maximum Packet Size
+        // (long Reason String) and are refused; the inbound exchanges they belong to stay open
+        // and keep counting against our Receive Maximum
+        let pw = g.pw();
+        g.op("set apr 0".into());
+        g.force_ok = true;
+        g.force_own_rm = Some(*g.rng.pick(&[1u16, 2]));
+        g.force_peer_mps = Some(*g.rng.pick(&[12u32, 20, 30]));
+        g.handshake();
+        g.force_own_rm = None;
+        g.force_peer_mps = None;
+        g.force_ok = false;
+        let long: Vec<P> = vec![P::Str(31, vec![b'r'; 40])];
+        for id in [1u64, 2, 3] {
+            if g.status() != "C" {
+                break;
+            }
+            let q = *g.rng.pick(&[1u8, 2, 2]);
+            g.op(format!("recv {}", hex(&w_publish(5, pw, q, false, false, b"a", id, &[], b"in"))));
+            if g.status() != "C" {
+                break;
+            }
+            if q == 1 {
+                g.op(format!("send 5 {}", hex(&w_ack(5, pw, 4, id, Some(0), Some(&long)))));
+                if g.rng.chance(1, 2) {
+                    g.op(format!("send 5 {}", hex(&w_ack(5, pw, 4, id, None, None))));
+                }
+            } else {
+                if g.rng.chance(1, 3) {
+                    g.op(format!("send 5 {}", hex(&w_ack(5, pw, 5, id, Some(0), Some(&long)))));
+                }
+                g.op(format!("send 5 {}", hex(&w_ack(5, pw, 5, id, None, None))));
+                g.op(format!("recv {}", hex(&w_ack(5, pw, 6, id, None, None))));
+                if g.status() == "C" {
+                    g.op(format!("send 5 {}", hex(&w_ack(5, pw, 7, id, Some(0), Some(&long)))));
+                    if g.rng.chance(1, 2) {
+                        g.op(format!("send 5 {}", hex(&w_ack(5, pw, 7, id, None, None))));
+                    }
+                }
+            }
+        }
+    }
+    if g.legal && g.rng.chance(1, 8) {
+        // directed: the PINGRESP timeout is switched off / changed while a PINGRESP is outstanding;
+        // then the PINGRESP arrives, the transport closes or a DISCONNECT is sent
+        let v = g.ver();
+        g.op("rto 1000".into());
+        g.force_ok = true;
+        g.handshake();
+        g.force_ok = false;
+        if g.status() == "C" && g.acts_as_client() {
+            g.op(format!("send {} {}", v, hex(&w_simple(0xc0))));
+            let t = *g.rng.pick(&[0u64, 0, 5000]);
+            g.op(format!("rto {t}"));
+            match g.rng.below(4) {
+                0 => g.op(format!("recv {}", hex(&w_simple(0xd0)))),
+                1 => g.op("closed".into()),
+                2 => g.op(format!("send {} {}", v, hex(&w_simple(0xe0)))),
+                _ => {
+                    g.op(format!("send {} {}", v, hex(&w_simple(0xc0))));
+                    g.op(format!("recv {}", hex(&w_simple(0xd0))));
+                }
+            }
+            if g.status() == "C" && g.rng.chance(1, 2) {
+                g.op("closed".into());
+            }
+        }
+    }
     if !g.started && g.rng.chance(1, 6) {
         // resume from an export made by a previous process (before any connection of this object)
         for _ in 0..2 {
@@ -1383,7 +1558,7 @@ fn reuse_trial<R: RoleType, T: IsPacketId>(role: &'static str, ver: u8, steps: u
     let focus = rng.below(6) as u8;
     let mut g = Gen::<R, T> {
         s: Sess::new(ver), rng, role, my_ids: vec![], inflight: vec![], rel_wait: vec![], peer_pubs: vec![], subs: vec![],
-        peer_mps: None, focus, legal: true, started: false, force_clean: None, force_ok: false, force_persist: false, force_ska: None, force_own_rm: None, force_peer_mps: None, force_peer_tam: None, boundary: false, plain_pub: false, force_sp: None, force_rc: None, force_own_tam: None, force_peer_rm: None,
+        peer_mps: None, focus, legal: true, started: false, force_clean: None, force_ok: false, force_persist: false, force_ska: None, force_own_rm: None, force_peer_mps: None, force_peer_tam: None, boundary: false, plain_pub: false, force_sp: None, force_rc: None, force_own_tam: None, force_peer_rm: None, ska_first: false, window_ops: vec![],
     };
     for f in ["off", "apr", "aping", "amap", "arep"] {
         if g.rng.chance(2, 5) {
@@ -1537,7 +1712,7 @@ fn reuse_trial<R: RoleType, T: IsPacketId>(role: &'static str, ver: u8, steps: u
 fn restore_trial<R: RoleType, T: IsPacketId>(role: &'static str, ver: u8, steps: usize, rng: &mut Rng, name: &str, out: &mut dyn Write) -> bool {
     let mut g = Gen::<R, T> {
         s: Sess::new(ver), rng, role, my_ids: vec![], inflight: vec![], rel_wait: vec![], peer_pubs: vec![], subs: vec![],
-        peer_mps: None, focus: 1, legal: true, started: false, force_clean: None, force_ok: false, force_persist: false, force_ska: None, force_own_rm: None, force_peer_mps: None, force_peer_tam: None, boundary: false, plain_pub: false, force_sp: None, force_rc: None, force_own_tam: None, force_peer_rm: None,
+        peer_mps: None, focus: 1, legal: true, started: false, force_clean: None, force_ok: false, force_persist: false, force_ska: None, force_own_rm: None, force_peer_mps: None, force_peer_tam: None, boundary: false, plain_pub: false, force_sp: None, force_rc: None, force_own_tam: None, force_peer_rm: None, ska_first: false, window_ops: vec![],
     };
     g.op("set apr 1".into());
     for f in ["off", "aping", "amap", "arep"] {
@@ -1636,7 +1811,16 @@ fn restore_trial<R: RoleType, T: IsPacketId>(role: &'static str, ver: u8, steps:
             g.op("closed".into());
         }
     }
+    if g.ver() == 5 && g.rng.chance(1, 3) {
+        // the peer's Maximum Packet Size of the resuming connection sits at / beside the size of a stored packet
+        let sizes: Vec<u32> = g.s.field("store").split("sz=").skip(1).filter_map(|x| x.split(',').next()?.parse().ok()).collect();
+        if !sizes.is_empty() {
+            let base = *g.rng.pick(&sizes) as i64;
+            g.force_peer_mps = Some((base + *g.rng.pick(&[-1i64, 0, 0, 1])).max(1) as u32);
+        }
+    }
     g.handshake();
+    g.force_peer_mps = None;
     g.force_clean = None;
     g.force_ok = false;
     g.force_persist = false;
@@ -1694,7 +1878,7 @@ fn undet_trial<R: RoleType, T: IsPacketId>(role: &'static str, steps: usize, rng
     let focus = rng.below(6) as u8;
     let mut g = Gen::<R, T> {
         s: Sess::new(0), rng, role, my_ids: vec![], inflight: vec![], rel_wait: vec![], peer_pubs: vec![], subs: vec![],
-        peer_mps: None, focus, legal: true, started: false, force_clean: None, force_ok: false, force_persist: false, force_ska: None, force_own_rm: None, force_peer_mps: None, force_peer_tam: None, boundary: false, plain_pub: false, force_sp: None, force_rc: None, force_own_tam: None, force_peer_rm: None,
+        peer_mps: None, focus, legal: true, started: false, force_clean: None, force_ok: false, force_persist: false, force_ska: None, force_own_rm: None, force_peer_mps: None, force_peer_tam: None, boundary: false, plain_pub: false, force_sp: None, force_rc: None, force_own_tam: None, force_peer_rm: None, ska_first: false, window_ops: vec![],
     };
     let mut options = vec![];
     for f in ["off", "apr", "aping", "amap", "arep"] {
@@ -1708,11 +1892,18 @@ fn undet_trial<R: RoleType, T: IsPacketId>(role: &'static str, steps: usize, rng
     let v = *g.rng.pick(&[4u8, 5]);
     let ps = if v == 5 { g.conn_props(false) } else { vec![] };
     let mut bytes = w_connect(v, g.rng.chance(1, 2), 10, b"cid", &ps);
-    match g.rng.below(6) {
+    match g.rng.below(8) {
         0 => {
             // truncated client identifier: one byte less, Remaining Length adjusted
             bytes.pop();
             bytes[1] -= 1;
+        }
+        6 if bytes[1] < 128 => {
+            // cut short after the protocol level / the flags / inside the keep alive
+            // (Remaining Length 7..11: the level byte is there, so the version is known)
+            let rl = 7 + g.rng.below(5) as usize;
+            bytes.truncate(2 + rl);
+            bytes[1] = rl as u8;
         }
         1 => bytes[9] |= 1,          // reserved connect flag
         2 => bytes[9] |= 0x18,       // will QoS 3
